@@ -135,7 +135,8 @@ class ScriptServer(fakenet.Endpoint):
                 self.consumed[-1] = o
             st["cur"] = o
             st["fault_fired"] = False
-            self.attempts.append({"sid": sock.sid, "outcome": o, "msg": None, "phase": "request", "host": sock.addr[0], "port": sock.addr[1]})
+            self.attempts.append({"sid": sock.sid, "outcome": o, "msg": None, "phase": "request", "host": sock.addr[0], "port": sock.addr[1],
+                                  "dirty": sock.readable_now(), "nth_on_socket": st.get("done", 0)})
             st["att"] = self.attempts[-1]
         o = st["cur"]
         consumed = st.get("consumed", 0)
@@ -210,6 +211,8 @@ class ScriptServer(fakenet.Endpoint):
             stray = None
             if then == "stray":
                 stray = o.get("stray", "HTTP/1.1 200 OK\r\nContent-Length: 6\r\n\r\nPOISON").encode("latin-1")
+            if o.get("pre100"):
+                data = b"HTTP/1.1 100 Continue\r\n\r\n" + data
             self.reply(sock, data, o.get("seg"))
             if stray:
                 rx.append(stray)
